@@ -6,6 +6,7 @@ import ast
 from ..astutil import (call_name, calls_in, const_value, find_func, is_self_attr, names_in, parse_expr, parse_stmt,
                        replace_node)
 from ..cfg import CFG
+from ..astutil import subst_names
 from ..frontend import AnalysisError, walk_function
 from ..report import norm_text
 from ..sibling import diff_blocks
@@ -178,6 +179,15 @@ def _derivatives(ctx):
                     den = c.args[0]
                 else:
                     den = c.args[1] if fn != "np.reciprocal" else c.args[0]
+                # temporaries: resolve locals that are defined once to their defining expression (two levels)
+                ldefs = {}
+                for s_ in walk_function(f.node):
+                    if isinstance(s_, ast.Assign) and len(s_.targets) == 1 and isinstance(s_.targets[0], ast.Name):
+                        ldefs.setdefault(s_.targets[0].id, []).append(s_.value)
+                single = {k_: v_[0] for k_, v_ in ldefs.items() if len(v_) == 1 and k_ not in f.params}
+                for _ in range(2):
+                    den = subst_names(den, single)
+                    w = subst_names(w, single)
                 if isinstance(den, ast.BinOp) and isinstance(den.op, ast.Pow) and isinstance(const_value(den.right), (int, float)) \
                         and const_value(den.right) > 0:
                     den = den.left          # X**k vanishes exactly where X does
